@@ -20,7 +20,7 @@ EXPL = ('(R-WORDALG/c++) the same word-level algebra with the resolved AST as fr
 def run(ctx):
     ctx.explanation = EXPL
     ctx.level = 'other'
-    ctx.assumptions = ['the curve parameter x (with its sign) is the trusted root; preconditions of the assembly specifications (canonical operands, inv*p[0] = -1 mod 2^64, T < p*2^384) are stated, not derived; inversion, exponentiation, square root and Legendre symbol are compositions of the decided primitives and are not decided as values; ARMv6-M assembly is not analysable and is summarised by its specification']
+    ctx.assumptions = ['the curve parameter x (with its sign) is the trusted root; preconditions of the assembly specifications (canonical operands, inv*p[0] = -1 mod 2^64 resp. 2^32, T < p*2^384) are stated, not derived; inversion, exponentiation, square root and Legendre symbol are compositions of the decided primitives and are not decided as values; the ARMv6-M assembly is decided on the disassembly of its sources after the divided-to-unified syntax rewrite of jpv/thumbconv.py (trusted; `mov lo, lo` leaves the flags unknown), the fused routines up to their call of the C++ reduce trampoline']
     import os
     from .. import buildmodel as bm
     ctx.add_extra_unit(os.path.join(bm.VERIF, 'fixtures', 'instantiate_all.cpp'))
@@ -35,6 +35,10 @@ def run(ctx):
         guards.canon_tables(ctx, cfg, prog)
         ns = nowrap.rule_nowrap(ctx, cfg, prog)
         wa = asmsem.rule_wordalg(ctx, cfg, os.path.join(ctx.outdir, 'asm'))
+        from .. import thumbsem
+        wt = thumbsem.rule_wordalg_thumb(ctx, cfg, os.path.join(ctx.outdir, 'asm'), prog=prog)
+        if cfg == 'm0-asm':
+            ctx.floor('R-WORDALG routine x aliasing instances[%s]' % cfg, wt, 18)
         from .. import cppword
         wc = cppword.rule_wordalg_cpp(ctx, cfg, prog)
         ctx.floor('R-WORDALG/c++ routine x aliasing instances[%s]' % cfg, wc, 35)
